@@ -792,6 +792,9 @@ class CircuitTemplate(AbstractBaseTemplate):
             for key, value in node_values.items():
                 *node_id, op, var = key.split("/")
                 target_nodes = self.get_nodes(node_id)
+                if not target_nodes:
+                    warn(PyRatesWarning(f'No node matching `{"/".join(node_id)}` was found for the node value {key}. '
+                                        f'The value has no effect.'))
                 for i, n in enumerate(target_nodes):
                     if n not in values:
                         values[n] = dict()
@@ -1403,6 +1406,9 @@ class CircuitTemplate(AbstractBaseTemplate):
         # extract target nodes from network
         *node_id, op, var = target.split('/')
         target_nodes = self.get_nodes(node_id, var_identifier=(op, var))
+        if not target_nodes:
+            warn(PyRatesWarning(f'Input target {target} was not found in the circuit: variable {var} of operator {op} '
+                                f'does not exist on any node matching `{"/".join(node_id)}`. The input has no effect.'))
 
         # create input node
         node_key, op_key, var_key, in_node = create_input_node(var, inp, adaptive, sim_time, vectorized_net)
